@@ -34,6 +34,31 @@ url_hex_val(char c)
 	return (0);
 }
 
+// url_host_decode replaces, in place, the escapes of unreserved characters in
+// a registered name (which ends at the ':' of the port) by the lower case
+// character itself, as nni_url_canonify_uri does for the path.  The escapes
+// have been checked already.
+static void
+url_host_decode(char *h)
+{
+	char *d = h;
+
+	while ((*h != '\0') && (*h != ':')) {
+		if (*h == '%') {
+			uint8_t c = (uint8_t) ((url_hex_val(h[1]) * 16) +
+			    url_hex_val(h[2]));
+			if (isalnum(c) || (c == '.') || (c == '~') ||
+			    (c == '_') || (c == '-')) {
+				*d++ = (char) tolower(c);
+				h += 3;
+				continue;
+			}
+		}
+		*d++ = *h++;
+	}
+	memmove(d, h, strlen(h) + 1);
+}
+
 // This returns either 0, or NNG_EINVAL, if the supplied input string
 // is malformed UTF-8.  We consider UTF-8 malformed when the sequence
 // is an invalid code point, not the shortest possible code point, or
@@ -560,6 +585,9 @@ nni_url_parse_inline_inner(nng_url *url, const char *raw)
 	    ((url->u_hostname[0] != '[') &&
 	        (!url_escapes_ok(url->u_hostname)))) {
 		return (NNG_EINVAL);
+	}
+	if (url->u_hostname[0] != '[') {
+		url_host_decode(url->u_hostname);
 	}
 
 	if ((rv = nni_url_canonify_uri(p)) != 0) {
